@@ -43,6 +43,7 @@ class Interp:
         from . import lib as _lib
         from . import models_time  # noqa: registers the datetime models
         from . import models_sci  # noqa: scipy / numpy.ma models
+        from . import models_io  # noqa: file / json / csv models
         self.repo = repo or Repo()
         self.registry = registry       # contracts by qualified name
         self.opts = opts or {}
